@@ -60,7 +60,7 @@ func init() {
 		ID: "C03", Cases: rpcCases(1600, 24000), Batch: rpcBatch,
 		Run: func(c *Case) {
 			runRPCProp(c, rpcWeights{register: 26, unregister: 8, call: 34, yield: 14, inverr: 4, cancel: 2, advance: 1, leave: 5, join: 3, foreign: 3,
-				progInv: 15, timeoutPct: 5, progPct: 30},
+				progInv: 15, timeoutPct: 5, progPct: 30, hotPct: 45},
 				func(rr *rpcRun) bool { return rr.run.Mon.Overlaps > 0 })
 		},
 		Rule: "generated scripts of overlapping exact/prefix/wildcard registrations under all five invocation policies, repeated and conflicting REGISTERs, UNREGISTER own/foreign/unknown, " +
